@@ -186,6 +186,10 @@ func isPrefix(p, full []string) bool {
 // checkC02: the C02 oracle for one stream whose handler returns nil.
 func checkC02(r *env.Rec, c streamCase) {
 	fam := "C02/stream"
+	if r.Runaway {
+		vsched.Fail(fam+"|recv-success-without-data", "%s: RecvMsg keeps returning nil without delivering anything", r.Tag)
+		return
+	}
 	if !r.CDone {
 		vsched.Fail(fam+"|caller-hang", "%s: the caller program never finished: %s", r.Tag, r.Summary())
 		return
